@@ -329,8 +329,20 @@ class Switch(Generic[R], GenerativeFunction[R]):
             # weight is relative to the trace we were given.
             weight = score - trace.get_score()
 
-        # TODO: this is totally wrong, fix in future PR.
-        bwd_request: Update = rets[0][3]
+        if Diff.tree_tangent(idx_diff) == NoChange:
+            # The backward move constrains the branch that was edited back to its
+            # previous values: select that branch's backward constraint (the
+            # other branches only hold placeholders of the right shape).
+            bwd_request = Update(
+                ChoiceMap.switch(
+                    new_idx, list(t[3].constraint for t in rets)
+                )
+            )
+        else:
+            # The branch was replaced by a freshly simulated one: going back (with
+            # the old index) re-creates the old branch, constrained to the
+            # choices it had.
+            bwd_request = Update(trace.get_choices())
 
         return (
             SwitchTrace(self, primals, subtraces, retval, score),
